@@ -240,19 +240,31 @@ Section Glue.
         let '(ps, e, _) := chunk_pieces o sizes c in (ps, e)
     end.
 
+  (* read_body: "if self._ignore_length and read_strategy == 'length': read_strategy = 'close'"
+     (a chunked body is still read by chunks) *)
+  Definition effective (ignore_length : bool) (st : strategy) : strategy :=
+    match st with
+    | SLength _ => if ignore_length then SClose else st
+    | _ => st
+    end.
+
   (* Stream.read_body on a response that has a body: setup, strategy loop, flush *)
   Definition read_body (o : oracle) (raw : bool) (ce : list N) (st : strategy) (wire : list N) : gres :=
     let '(ps, abort) := body_pieces o st (mkConn wire false) in
     glue_run raw ce abort ps.
+
+  Definition read_body_il (o : oracle) (raw : bool) (ce : list N) (ignore_length : bool) (st : strategy)
+             (wire : list N) : gres :=
+    read_body o raw ce (effective ignore_length st) wire.
 End Glue.
 
 (* ---- the table-driven zlib instance of Model/Decomp.v, for the correspondence ---- *)
 Definition tab_glue (t31 t15 traw : ztab) (raw : bool) (ce : list N) (abort : option gerr) (pieces : list (list N)) : gres :=
   glue_run tst (tab_init t31 t15 traw) tab_step t_eof (fun _ => []) raw ce abort pieces.
 
-Definition tab_read_body (t31 t15 traw : ztab) (o : oracle) (raw : bool) (ce : list N)
+Definition tab_read_body (t31 t15 traw : ztab) (o : oracle) (raw : bool) (ce : list N) (ignore_length : bool)
            (st : strategy) (wire : list N) : gres :=
-  read_body tst (tab_init t31 t15 traw) tab_step t_eof (fun _ => []) o raw ce st wire.
+  read_body_il tst (tab_init t31 t15 traw) tab_step t_eof (fun _ => []) o raw ce ignore_length st wire.
 
 Definition tab_gzip_uncompress (t31 : ztab) (data : list N) (truncated : bool) : option (list N) :=
   gzip_uncompress tst (tab_init t31 t31 t31) tab_step t_eof (fun _ => []) data truncated.
